@@ -289,7 +289,7 @@ func run(prop, tier string) int {
 				continue
 			}
 		}
-		if ph.SkipIfViol && len(violations) > 0 {
+		if ph.SkipIfViol && hasUnknownViolation(prop, violations) {
 			continue
 		}
 		pstart := time.Now()
@@ -471,6 +471,23 @@ func run(prop, tier string) int {
 	fmt.Printf("OK property=%s tier=%s states=%d transitions=%d impl_cases=%d nontrivial=%d known=%d drift=%d wall=%.1fs\n",
 		prop, tier, states, transitions, evals, nontrivial, len(knownHit), len(drift), time.Since(start).Seconds())
 	return 0
+}
+
+// hasUnknownViolation tells whether any violation so far is not a listed known finding.
+func hasUnknownViolation(prop string, vs []Finding) bool {
+	known := loadKnown()
+	for _, v := range vs {
+		matched := false
+		for _, k := range known {
+			if k.Status == "known" && k.Property == prop && k.Key == v.Key {
+				matched = true
+			}
+		}
+		if !matched {
+			return true
+		}
+	}
+	return false
 }
 
 func capFindings(f []Finding, n int) []Finding {
